@@ -36,11 +36,16 @@ pub fn decode_any<S: ReadableShape, const B: usize>(code: i32, alloc_check: bool
     // type error, covered by C19/C06); everything behind it is arbitrary
     put_i32_le(&mut img, 0, code);
     let record_size: i32 = kani::any();
-    let _ = alloc_check;
+    if alloc_check {
+        c17_native_reset();
+    }
     let mut src = MemSource::new(&img);
     let r = S::read_from(&mut src, record_size);
     kani::cover!(r.is_err(), "some input is rejected");
     std::mem::forget(r);
+    if alloc_check {
+        c17_native_check();
+    }
 }
 
 /// Multi-part decoders. With arbitrary part and point counts the nested part x point loops over
@@ -61,9 +66,14 @@ pub fn decode_offsets_any<S: TShape, const B: usize>(alloc_check: bool) {
     put_i32_le(&mut img, 0, S::CODE);
     put_i32_le(&mut img, 36, 2);
     put_i32_le(&mut img, 40, 2);
-    let _ = alloc_check;
+    if alloc_check {
+        c17_native_reset();
+    }
     let mut src = MemSource::with_len(&img, e);
     let r = S::read_from(&mut src, e as i32);
+    if alloc_check {
+        c17_native_check();
+    }
     kani::cover!(r.is_err(), "some offsets are rejected");
     kani::cover!(r.is_ok(), "some offsets are accepted");
     std::mem::forget(r);
